@@ -10,8 +10,9 @@ import hashlib, json, os, shutil, subprocess, sys, time, glob, fcntl
 
 VERIF = os.path.dirname(os.path.dirname(os.path.abspath(__file__)))
 REPO = os.environ.get("VERIF_REPO", "/repo")
-WORK = os.path.join(VERIF, ".work")
-DRIVER = os.path.join(WORK, "driver-target", "debug", "mirfacts")
+WORK = os.environ.get("VERIF_WORK") or os.path.join(VERIF, ".work")
+TARGET_BASE = os.environ.get("VERIF_TARGET_BASE") or os.path.join(VERIF, ".work")
+DRIVER = os.path.join(VERIF, ".work", "driver-target", "debug", "mirfacts")
 CRATES = ["foyer_common", "foyer_memory", "foyer_storage", "foyer"]
 PKGS = ["foyer-common", "foyer-memory", "foyer-storage", "foyer", "foyer-tokio"]
 
@@ -83,7 +84,7 @@ def ensure(config="default", repo=REPO, work=WORK, quiet=False):
             return out
         shutil.rmtree(out, ignore_errors=True)
         os.makedirs(out)
-        target = os.path.join(work, "target-" + config if config != "default" else "target")
+        target = os.path.join(TARGET_BASE, "target-" + config if config != "default" else "target")
         for fp in glob.glob(os.path.join(target, "debug", ".fingerprint", "foyer*")):
             # only the workspace members (not foyer-intrusive-collections / foyer-bytesize from the registry)
             base = os.path.basename(fp)
